@@ -158,8 +158,11 @@ class Run:
                                    "inputs; distinct = distinct (class,key) pairs whose query mentioned at least one "
                                    "symbolic input and was decided"),
             "samples": self.samples or ["(none)"],
-            "obligations": self.obligations,
+            # obligations = those the claim covers (decided); inconclusive ones are excluded from the claim and
+            # disclosed under attempted / inconclusive / inconclusive_list
+            "obligations": self.discharged + sum(c["violations"] + c["known"] for c in self.classes.values()),
             "discharged": self.discharged,
+            "attempted": self.obligations,
             "inconclusive": len(self.inconclusive) if len(self.inconclusive) < 200 else sum(
                 c["inconclusive"] for c in self.classes.values()),
             "inconclusive_list": self.inconclusive[:60],
